@@ -22,6 +22,11 @@ C29  Associate resolution and merging preserve program behaviour.
      is built from the association *list*; going through a mapping keyed by the
      selector collapses two names bound to the same selector and one of them is
      never replaced.
+ R6  the subscripts of a substituted symbol are resolved themselves before the
+     range matching in ``ResolveAssociateMapper.map_array``.
+ R7  merging keeps every name bound: an association moved to the enclosing block
+     is appended unless the same (selector, name) pair is already there; the same
+     selector under another name is not a duplicate (filter evaluated abstractly).
 Not decided: selector evaluation time, bounds shifts, merge legality.
 """
 import ast
@@ -129,6 +134,69 @@ def run(ctx):
     ctx.wired('R3', 'do_resolve_associates', dra.where, src, ['routine.body = transformer.visit(routine.body)', 'routine.rescope_symbols()'],
               'body not replaced by the transformed body / symbols not rescoped')
     _r4_r5(ctx)
+    _r6_r7(ctx)
+
+
+def _r6_r7(ctx):
+    import types
+    from sa.miniev import ev_ext, Unknown
+    m = ctx.model
+    ctx.rule('R6', 'ResolveAssociateMapper.map_array: the subscripts of the substituted symbol are resolved (self.rec) before the range matching')
+    ctx.rule('R7', 'MergeAssociatesTransformer.visit_Associate: an association moved to the parent is appended unless the *same pair* '
+                   '(selector, name) is already there -- evaluated for same selector / other name')
+    M = m.get_class(FILE, 'ResolveAssociateMapper')
+    ma = M.function('map_array')
+    if ma is None:
+        raise AnalysisError('ResolveAssociateMapper.map_array vanished')
+    calls = [c for c in ast.walk(ma.node) if isinstance(c, ast.Call) and (X.dotted_attr(c.func) or '').endswith('_match_range_indices') and c.args]
+    if not calls:
+        raise AnalysisError('map_array: call of _match_range_indices not found')
+    recd = set(X.names_assigned_from(ma.node, 'self.rec(', '.dimensions'))
+    for c in calls:
+        a0 = c.args[0]
+        ok = (isinstance(a0, ast.Name) and a0.id in recd) or ('self.rec(' in ast.unparse(a0))
+        (ctx.judge('R6', 'map_array: replaced subscripts are resolved before matching') if ok else
+         ctx.violation('R6', 'ResolveAssociateMapper.map_array:subscripts-not-resolved', f'{FILE}:{c.lineno}',
+                       f'`{ast.unparse(c)[:80]}` matches the subscripts of the substituted symbol as they are: an associate name used as a '
+                       f'subscript of a member of an associated parent (geom%height(i, ktop) with ktop => obj%dims%ktop) is left dangling '
+                       f'once the ASSOCIATE block is removed'))
+    T = m.get_class(FILE, 'MergeAssociatesTransformer')
+    va = T.function('visit_Associate')
+    if va is None:
+        raise AnalysisError('MergeAssociatesTransformer.visit_Associate vanished')
+    par = [a.arg for a in va.node.args.args][1]
+    upd = [c for c in ast.walk(va.node) if isinstance(c, ast.Call) and (X.dotted_attr(c.func) or '') == f'{par}.parent._update']
+    if not upd:
+        raise AnalysisError('visit_Associate: update of the parent associations not found')
+    added = {n.id for c in upd for k in c.keywords if k.arg == 'associations' for n in ast.walk(k.value) if isinstance(n, ast.Name)} - {par}
+    comps = [a.value.args[0] if isinstance(a.value, ast.Call) and a.value.args else a.value for a in ast.walk(va.node)
+             if isinstance(a, ast.Assign) and any(isinstance(t, ast.Name) and t.id in added for t in a.targets)]
+    comps = [c for c in comps if isinstance(c, (ast.GeneratorExp, ast.ListComp)) and c.generators[0].ifs]
+    if len(comps) != 1:
+        raise AnalysisError('visit_Associate: the filter deciding what is appended to the parent was not found')
+    gen = comps[0]
+    tgt = gen.generators[0].target
+    if not (isinstance(tgt, ast.Tuple) and len(tgt.elts) == 2):
+        raise AnalysisError('visit_Associate: filter target is not a (selector, name) pair')
+    en, nn = tgt.elts[0].id, tgt.elts[1].id
+    S, S2 = 'model%phy', 'model%dyn'
+    parent = types.SimpleNamespace(associations=((S, 'phy'),), association_map={S: 'phy'}, inverse_map={'phy': S})
+    cases = {'same selector, same name (already there)': ((S, 'phy'), False), 'same selector, other name': ((S, 'yphy'), True),
+             'other selector': ((S2, 'dyn'), True)}
+    for label, ((e_, n_), want) in cases.items():
+        env = {en: e_, nn: n_, par: types.SimpleNamespace(parent=parent)}
+        try:
+            got = all(bool(ev_ext(c, env)) for c in gen.generators[0].ifs)
+        except Unknown as u:
+            raise AnalysisError(f'visit_Associate: filter uses `{u}`, outside the evaluated fragment')
+        inst = f'visit_Associate:append-to-parent:{label}'
+        if got == want:
+            ctx.judge('R7', inst)
+        else:
+            ctx.violation('R7', 'MergeAssociatesTransformer.visit_Associate:pair-dropped', f'{FILE}:{gen.lineno}',
+                          f'with the parent binding {S} as `phy`, the moved association ({e_} => {n_}) is {"appended" if got else "not appended"} '
+                          f'(filter `{" and ".join(ast.unparse(c) for c in gen.generators[0].ifs)}`): the pair is removed from the inner block '
+                          f'either way, so the name `{n_}` becomes unbound in the body', instance=inst)
 
 
 def _r4_r5(ctx):
@@ -199,6 +267,10 @@ def _r4_r5(ctx):
 
 
 MUTANTS = [
+    Mutant('replaced-subscripts-not-resolved', FILE, "            new_dims = self.rec(new.dimensions, *args, **kwargs)\n            new_dims = self._match_range_indices(new_dims, expr_dims)",
+           "            new_dims = self._match_range_indices(new.dimensions, expr_dims)", expect=('R6', 'subscripts-not-resolved')),
+    Mutant('merge-dedup-by-selector', FILE, "            if (expr, name) not in o.parent.associations\n", "            if expr not in o.parent.association_map\n",
+           expect=('R7', 'pair-dropped')),
     Mutant('binding-guard-at-least', FILE, "        if len(free_symbols) == len(indices):", "        if len(indices) >= len(free_symbols):", expect=('R4', 'binding-guard')),
     Mutant('neutral-binding-guard-flipped', FILE, "        if len(free_symbols) == len(indices):", "        if not len(indices) != len(free_symbols):", expect=None),
     Mutant('inverse-map-through-selector-map', 'loki/ir/nodes/internal_nodes.py', "        return CaseInsensitiveDict((v, k) for k, v in self.associations)",
